@@ -198,7 +198,7 @@ Proof.
   split; [exact Hb|]. cbn [stale_class] in Hno. rewrite Hq in Hno. rewrite (oi_bound _ _ _ _ HI), Hb, (oi_defs _ _ _ _ HI) in Hno. cbn [andb] in Hno.
   destruct (room_valid_now defs r key now); [reflexivity|]. cbn [negb] in Hno.
   pose proof (oi_cov _ _ _ _ HI r Hin) as Hc.
-  destruct (find (fun x : uid * bool => N.eqb (fst x) r) gh) as [[r0 [|]]|]; [| |congruence]; destruct Hno as [H1 H2]; Show; cbn in H1, H2; first [discriminate H1 | discriminate H2].
+  Show. destruct (find (fun x : uid * bool => N.eqb (fst x) r) gh) as [[r0 [|]]|]; [| |congruence]; destruct Hno as [H1 H2]; cbn in H1, H2; first [discriminate H1 | discriminate H2].
 Qed.
 Lemma valid_member : forall defs r key now, room_valid_now defs r key now = true -> member_now defs r key now = true.
 Proof.
